@@ -89,5 +89,58 @@ def encodeFile (P : Bytes) (gs : List (List Tok)) (pad : Nat) : Bytes :=
   let comp := S.length + 8 + pad
   P ++ S.reverse ++ List.replicate pad 0xFF ++ toLE 4 (comp + (8 + pad) * 2 ^ 24) ++ toLE 4 (totalOut gs - comp)
 
+/-! ### a certifying reference compressor
+
+  Greedy longest-match tokenisation from the end of the data (distance 3…0x1002, length 3…18), then the longest token
+  prefix that can be decoded in place.  Whatever the match finder proposes is CHECKED (`validB` and "the tokens stand for
+  the data") before an image is produced, so `decompress (compress x) = x` follows from the round-trip theorem without
+  any reasoning about the match finder. -/
+
+/-- length of the match between `x[q - k]` and `x[q - k + d]`, `k = 0, 1, …`, capped at 18 -/
+def matchLen (x : Array UInt8) (q d : Nat) : Nat → Nat → Nat
+  | 0, ln => ln
+  | fuel + 1, ln =>
+    if ln < 18 ∧ ln ≤ q ∧ x.getD (q - ln) 0 = x.getD (q - ln + d) 0 ∧ q - ln + d < x.size then matchLen x q d fuel (ln + 1) else ln
+
+/-- best (distance, length) for position `q`: the first distance with the greatest length ≥ 3, stopping at length 18 -/
+def bestMatch (x : Array UInt8) (q maxd : Nat) : Nat → Nat → Option (Nat × Nat) → Option (Nat × Nat)
+  | 0, _, best => best
+  | fuel + 1, d, best =>
+    if d > maxd then best
+    else
+      let ln := matchLen x q d 18 0
+      let better : Bool := match best with | none => true | some (_, bl) => decide (ln > bl)
+      let best' := if decide (ln ≥ 3) && better then some (d, ln) else best
+      if ln = 18 ∧ best' = some (d, ln) then best' else bestMatch x q maxd fuel (d + 1) best'
+
+/-- tokens in decoding order; `q + 1` bytes remain to be covered -/
+def tokensFrom (x : Array UInt8) : Nat → Nat → List Tok → List Tok
+  | 0, _, acc => acc.reverse
+  | fuel + 1, q1, acc =>
+    if q1 = 0 then acc.reverse
+    else
+      let q := q1 - 1
+      let maxd := min 0x1002 (x.size - 1 - q)
+      match bestMatch x q maxd 0x1000 3 none with
+      | some (d, ln) => tokensFrom x fuel (q1 - ln) (.ref (d - 3) (ln - 3) :: acc)
+      | none => tokensFrom x fuel (q1 - 1) (.lit (x.getD q 0) :: acc)
+
+def groupsOf : List Tok → List (List Tok)
+  | [] => []
+  | t :: ts => (t :: ts.take 7) :: groupsOf (ts.drop 7)
+termination_by l => l.length
+decreasing_by simp; omega
+
+/-- the image for the token prefix of length `j`, if that choice is a disciplined one that stands for `x` -/
+def tryCut (x : Bytes) (toks : List Tok) (pad j : Nat) : Option Bytes :=
+  let gs := groupsOf (toks.take j)
+  let P := x.take (x.length - totalOut gs)
+  if validB P gs pad && (P ++ expand gs [] == x) then some (encodeFile P gs pad) else none
+
+/-- `compress x pad`: the image with the most tokens compressed, or `none` when nothing can be gained -/
+def compress (x : Bytes) (pad : Nat) : Option Bytes :=
+  let toks := tokensFrom x.toArray (x.length + 1) x.length []
+  ((List.range toks.length).reverse.map (· + 1)).findSome? (tryCut x toks pad)
+
 end Lzss
 end Pyctr
